@@ -204,6 +204,9 @@ func randUnknown(r *rand.Rand) *refmcap.UnknownRec {
 	if r.Intn(3) == 0 {
 		n = r.Intn(301)
 	}
+	if r.Intn(40) == 0 {
+		n = 64<<10 + 1 + r.Intn(140<<10) // above the 64 KiB thresholds of buffered read paths
+	}
 	b := make([]byte, n)
 	r.Read(b)
 	if n >= 9 && r.Intn(3) == 0 {
@@ -397,7 +400,7 @@ func firstDiffPlain(a, b []string) string {
 }
 
 func RunC11(ctx *core.Ctx, rep *core.Report) {
-	rep.Rule = "random contents laid out by the reference encoder (random legal layouts), then re-encoded with records of unknown opcodes (0x10-0x7F and 0x80-0xFF, lengths 0..300) inserted at top level of the data section, inside chunks and as their own summary groups, and 1..64 trailing bytes (incl. the conformance pad pattern 01 ff ff) appended to header, schema, channel, attachment, metadata, message index, chunk index, attachment index, metadata index, statistics and summary offset records; all offsets, lengths and CRCs recomputed. " +
+	rep.Rule = "random contents laid out by the reference encoder (random legal layouts), then re-encoded with records of unknown opcodes (0x10-0x7F and 0x80-0xFF, lengths 0..300, one in forty 64-200 KiB) inserted at top level of the data section, inside chunks and as their own summary groups, and 1..64 trailing bytes (incl. the conformance pad pattern 01 ff ff) appended to header, schema, channel, attachment, metadata, message index, chunk index, attachment index, metadata index, statistics and summary offset records; all offsets, lengths and CRCs recomputed. " +
 		"Oracle: the offset-free projection of everything the Go readers report (lexer stream with validation on/off, scan, index-based reads in three orders, metadata callbacks, Info, attachment/metadata random access) is identical for both files. The 208 padded conformance vectors are covered by C17. " +
 		"distinct_nontrivial counts file pairs that differ by at least one unknown record or trailing byte."
 	rep.Assumptions = []string{"both files verified spec-valid by the reference validator", "unknown records are never placed between a chunk and its message index records"}
